@@ -44,32 +44,53 @@ pub mod error {
 ///    "a-req": {
 ///      "type": "string"
 ///    },
-///    "bOpt": {
+///    "dDef": {
+///      "default": "x y",
 ///      "type": "string"
 ///    },
-///    "c-def0": {
-///      "default": "",
-///      "type": "string"
+///    "e-null": {
+///      "type": [
+///        "string",
+///        "null"
+///      ]
+///    },
+///    "fNullDef": {
+///      "default": "x y",
+///      "type": [
+///        "string",
+///        "null"
+///      ]
 ///    }
 ///  }
 ///}
 /// ```
 /// </details>
-#[derive(::serde::Deserialize, ::serde::Serialize, Clone, Debug, PartialEq)]
+#[derive(::serde::Deserialize, ::serde::Serialize, Clone, Debug)]
 pub struct G {
     #[serde(rename = "a-req")]
     pub a_req: ::std::string::String,
+    #[serde(rename = "dDef", default = "defaults::g_d_def")]
+    pub d_def: ::std::string::String,
     #[serde(
-        rename = "bOpt",
+        rename = "e-null",
         default,
         skip_serializing_if = "::std::option::Option::is_none"
     )]
-    pub b_opt: ::std::option::Option<::std::string::String>,
-    #[serde(rename = "c-def0", default)]
-    pub c_def0: ::std::string::String,
+    pub e_null: ::std::option::Option<::std::string::String>,
+    #[serde(rename = "fNullDef", default = "defaults::g_f_null_def")]
+    pub f_null_def: ::std::option::Option<::std::string::String>,
 }
 impl ::std::convert::From<&G> for G {
     fn from(value: &G) -> Self {
         value.clone()
+    }
+}
+/// Generation of default values for serde.
+pub mod defaults {
+    pub(super) fn g_d_def() -> ::std::string::String {
+        "x y".to_string()
+    }
+    pub(super) fn g_f_null_def() -> ::std::option::Option<::std::string::String> {
+        ::std::option::Option::Some("x y".to_string())
     }
 }
